@@ -10,6 +10,7 @@ mod hostscmd;
 mod j;
 mod mergecmd;
 mod namescmd;
+mod resolvecmd;
 mod wirecmd;
 mod zonecmd;
 mod zonetextcmd;
@@ -67,6 +68,8 @@ fn main() {
         "zone-text" => zonetextcmd::zone_text(&args[2], &args[3]),
         "parse-only" => zonetextcmd::parse_only(&args[2], &args[3]),
         "zone-merge" => mergecmd::zone_merge(&args[2], &args[3]),
+        "resolve" => resolvecmd::resolve(&args[2], &args[3]),
+        "validate" => resolvecmd::validate(&args[2], &args[3]),
         "zone-resolve" => zonecmd::zone_resolve(&args[2], &args[3]),
         other => {
             eprintln!("unknown command {other}");
